@@ -81,6 +81,7 @@ func (r *decompressor) Reset(under io.Reader, _ []byte) error {
 	r.err = nil
 	r.srcErr = nil
 	r.outputFull = false
+	vrtrace("reset", 0, 0, 0, 0)
 	r.writePos = 0
 	r.readPos = 0
 	r.state.reset()
@@ -123,6 +124,7 @@ func (f *decompressor) step() (err error) {
 		// the whole stream has been decoded and delivered, and the input up to
 		// its end has been given back: do not ask the source for more
 		state.phase = phaseFinish
+		vrtrace("fin", 0, 0, 0, 0)
 		return io.EOF
 	}
 
@@ -134,10 +136,12 @@ func (f *decompressor) step() (err error) {
 		if err == nil && !f.outputFull {
 			// (after a stop at a full output window the bit buffer may still
 			// hold decodable input: go on with what is there)
+			vrtrace("wait", loaded, f.rBuf.Buffered(), vrbool(state.phase == phaseStreamEnd), 0)
 			_, err = f.rBuf.Peek(loaded + 1)
 		}
 		state.input, _ = f.rBuf.Peek(f.rBuf.Buffered())
 		f.peekSize = len(state.input)
+		vrtrace("peek", loaded, f.peekSize, vrbool(err != nil && err != bufio.ErrBufferFull), 0)
 		if err != nil && err != bufio.ErrBufferFull && err != io.EOF {
 			if len(state.input) <= loaded {
 				return err
@@ -161,10 +165,12 @@ func (f *decompressor) step() (err error) {
 	startInputSize, startBitsLen := len(f.state.input), int(f.state.bitsLen)
 	err = f.decomperss()
 	f.outputFull = err == errOutputOverflow
+	vrtrace("dec", vrstop(err), startInputSize-len(f.state.input), f.writePos-f.readPos, vrbool(state.phase == phaseStreamEnd))
 	f.state.rOffset(startInputSize, startBitsLen)
 
 	if isError(err) || (err == errEndInput && f.eof) {
 		discardSize := f.peekSize - len(f.state.input) - int(state.bitsLen/8)
+		vrtrace("disc", discardSize, f.peekSize, len(f.state.input), int(state.bitsLen/8))
 		if discardSize > 0 {
 			_, err := f.rBuf.Discard(discardSize)
 			if err != nil {
@@ -189,6 +195,7 @@ func (f *decompressor) step() (err error) {
 	}
 	if len(f.state.input) == 0 || state.phase == phaseFinish {
 		discardSize := f.peekSize - len(f.state.input) - int(state.bitsLen/8)
+		vrtrace("disc", discardSize, f.peekSize, len(f.state.input), int(state.bitsLen/8))
 		if discardSize > 0 {
 			_, err := f.rBuf.Discard(discardSize)
 			if err != nil {
